@@ -213,7 +213,7 @@ func cmdCheck(args []string) int {
 					beFeasible[r.O.Key]++
 				}
 			} else if r.O.Kind == "vacuity-pre" {
-			} else if r.R.Status == "unsat" && !(r.O.Kind == "vacuity-post" && preUnsat(rr, r.O.Key)) {
+			} else if r.R.Status == "unsat" && (r.O.Kind != "vacuity-post" || postVacuous(rr, r)) {
 				vacuous = append(vacuous, r.O.Key+": "+r.O.Desc)
 			}
 			continue
